@@ -1,14 +1,20 @@
-// NFSv4.1 front end: NewNFS41Program in process over NewNFSHandleAllocator
-// and an OpenedFilesPool.  The harness plays the client: one client id, one
-// session, one slot; every call of a history is one COMPOUND (SEQUENCE,
-// PUTROOTFH/PUTFH, the operation, GETFH/GETATTR of the result).
+// NFSv4 front ends: NewNFS41Program ("nfs41") or NewNFS40Program ("nfs40",
+// which has its own copies of the directory operations) in process over
+// NewNFSHandleAllocator and an OpenedFilesPool.  The harness plays the
+// client: one client id; 4.1: one session, one slot, every COMPOUND led by
+// SEQUENCE; 4.0: SETCLIENTID/SETCLIENTID_CONFIRM, a fresh open-owner per OPEN
+// (OPEN, OPEN_CONFIRM, CLOSE with consecutive seqids).  Every call of a
+// history is one COMPOUND (PUTROOTFH/PUTFH, the operation, GETFH/GETATTR of
+// the result).
 //
 // Canonicalisation (everything else is compared as is):
 //   - file handle = the 8 bytes the NFS handle allocator drew for the
 //     object; objects are identified by GETFH / the filehandle attribute;
 //   - nfsstat4 of the COMPOUND and READDIR cookies go into the case file
-//     under Front.v's nfs_status / cookie_of_off; cookie verifiers are the
-//     server's (or zero), never compared;
+//     under Front.v's nfs_status / cookie_of_off; the cookie verifier sent
+//     with a cookie is the one the server handed out; now and then a
+//     request with the same cookie and a verifier the server never handed
+//     out is sent first and must be refused (NFS4ERR_NOT_SAME);
 //   - change_info4 of CREATE/OPEN/LINK/REMOVE/RENAME, the change attribute
 //     of directories and numlinks of files are compared (taken from the
 //     replies, not from the objects);
@@ -46,19 +52,44 @@ func (frozenClock) NewTicker(d time.Duration) (clock.Ticker, <-chan time.Time) {
 
 type nfsFront struct {
 	w        *world
+	minor    uint32 // 1: NFSv4.1, 0: NFSv4.0
 	program  nfsv4.Nfs4Program
 	protocol func(string)
 	clientID uint64
 	session  [16]byte
 	seq      uint32
+	owners   uint32  // 4.0: open-owners used so far
 	verifier [8]byte // cookie verifier of the last READDIR reply
 }
 
 var nfsChanAttrs = nfsv4.ChannelAttrs4{CaMaxrequestsize: 1 << 20, CaMaxresponsesize: 1 << 20, CaMaxresponsesizeCached: 1 << 20, CaMaxoperations: 16, CaMaxrequests: 1}
 
-func newNFSFront(w *world, root virtual.Directory, alloc *virtual.NFSStatefulHandleAllocator, protocol func(string)) (*nfsFront, error) {
-	n := &nfsFront{w: w, protocol: protocol}
+func newNFSFront(w *world, root virtual.Directory, alloc *virtual.NFSStatefulHandleAllocator, protocol func(string), minor uint32) (*nfsFront, error) {
+	n := &nfsFront{w: w, protocol: protocol, minor: minor}
 	pool := nfs.NewOpenedFilesPool(alloc.ResolveHandle)
+	ctx := context.Background()
+	if minor == 0 {
+		n.program = nfs.NewNFS40Program(root, pool, &counterRNG{}, nfsv4.Verifier4{7}, [4]byte{9, 9, 9, 9},
+			frozenClock{}, time.Hour, 2*time.Hour, path.UNIXFormat, nil)
+		res, err := n.program.NfsV4Nfsproc4Compound(ctx, &nfsv4.Compound4args{Argarray: []nfsv4.NfsArgop4{
+			&nfsv4.NfsArgop4_OP_SETCLIENTID{Opsetclientid: nfsv4.Setclientid4args{
+				Client:   nfsv4.NfsClientId4{Verifier: nfsv4.Verifier4{1}, Id: []byte("dir-harness")},
+				Callback: nfsv4.CbClient4{CbProgram: 1, CbLocation: nfsv4.Netaddr4{NaRNetid: "tcp", NaRAddr: "127.0.0.1.0.1"}},
+			}},
+		}})
+		if err != nil || res.Status != nfsv4.NFS4_OK {
+			return nil, fmt.Errorf("SETCLIENTID failed: %v %v", err, res)
+		}
+		ok := res.Resarray[0].(*nfsv4.NfsResop4_OP_SETCLIENTID).Opsetclientid.(*nfsv4.Setclientid4res_NFS4_OK).Resok4
+		n.clientID = ok.Clientid
+		res, err = n.program.NfsV4Nfsproc4Compound(ctx, &nfsv4.Compound4args{Argarray: []nfsv4.NfsArgop4{
+			&nfsv4.NfsArgop4_OP_SETCLIENTID_CONFIRM{OpsetclientidConfirm: nfsv4.SetclientidConfirm4args{Clientid: ok.Clientid, SetclientidConfirm: ok.SetclientidConfirm}},
+		}})
+		if err != nil || res.Status != nfsv4.NFS4_OK {
+			return nil, fmt.Errorf("SETCLIENTID_CONFIRM failed: %v %v", err, res)
+		}
+		return n, nil
+	}
 	attrs := nfsChanAttrs
 	n.program = nfs.NewNFS41Program(
 		root, pool,
@@ -72,7 +103,6 @@ func newNFSFront(w *world, root virtual.Directory, alloc *virtual.NFSStatefulHan
 		path.UNIXFormat,
 		nil,
 	)
-	ctx := context.Background()
 	res, err := n.program.NfsV4Nfsproc4Compound(ctx, &nfsv4.Compound4args{Minorversion: 1, Argarray: []nfsv4.NfsArgop4{
 		&nfsv4.NfsArgop4_OP_EXCHANGE_ID{OpexchangeId: nfsv4.ExchangeId4args{
 			EiaClientowner:  nfsv4.ClientOwner4{CoVerifier: nfsv4.Verifier4{1}, CoOwnerid: []byte("dir-harness")},
@@ -106,6 +136,16 @@ type nfsReply struct {
 func (r nfsReply) failedAt() int { return len(r.res) - 1 }
 
 func (n *nfsFront) compound(ops ...nfsv4.NfsArgop4) nfsReply {
+	if n.minor == 0 {
+		res, err := n.program.NfsV4Nfsproc4Compound(context.Background(), &nfsv4.Compound4args{Argarray: ops})
+		if err != nil {
+			panic(err)
+		}
+		if len(res.Resarray) == 0 {
+			n.protocol("empty-compound-reply")
+		}
+		return nfsReply{status: res.Status, res: res.Resarray}
+	}
 	n.seq++
 	args := nfsv4.Compound4args{Minorversion: 1, Argarray: append([]nfsv4.NfsArgop4{
 		&nfsv4.NfsArgop4_OP_SEQUENCE{Opsequence: nfsv4.Sequence4args{SaSessionid: n.session, SaSequenceid: n.seq}},
@@ -127,6 +167,13 @@ func (n *nfsFront) compound(ops ...nfsv4.NfsArgop4) nfsReply {
 var nfsStatusNames = map[nfsv4.Nfsstat4]string{
 	0: "SOK", 1: "SPerm", 2: "SNoEnt", 5: "SIO", 17: "SExist", 18: "SXDev", 20: "SNotDir", 21: "SIsDir", 22: "SInval",
 	66: "SNotEmpty", 70: "SStale", 10029: "SSymlink", 10083: "SWrongType",
+}
+
+func (n *nfsFront) name() string {
+	if n.minor == 0 {
+		return "nfs40"
+	}
+	return "nfs41"
 }
 
 func (n *nfsFront) st(r *result, s nfsv4.Nfsstat4) {
@@ -270,9 +317,15 @@ func (n *nfsFront) open(d int, name string, create, existing bool) *result {
 		how = &nfsv4.Openflag4_OPEN4_CREATE{How: &nfsv4.Createhow4_GUARDED4{}}
 	}
 	before := len(n.w.leaves)
+	owner, seqid := []byte("o"), uint32(0)
+	if n.minor == 0 {
+		// a fresh open-owner: any seqid is accepted, the open has to be confirmed
+		n.owners++
+		owner, seqid = []byte(fmt.Sprintf("o%d", n.owners)), 10
+	}
 	rep := n.compound(n.putDir(d), &nfsv4.NfsArgop4_OP_OPEN{Opopen: nfsv4.Open4args{
-		ShareAccess: nfsv4.OPEN4_SHARE_ACCESS_READ, ShareDeny: nfsv4.OPEN4_SHARE_DENY_NONE,
-		Owner:   nfsv4.StateOwner4{Clientid: n.clientID, Owner: []byte("o")},
+		Seqid: seqid, ShareAccess: nfsv4.OPEN4_SHARE_ACCESS_READ, ShareDeny: nfsv4.OPEN4_SHARE_DENY_NONE,
+		Owner:   nfsv4.StateOwner4{Clientid: n.clientID, Owner: owner},
 		Openhow: how, Claim: &nfsv4.OpenClaim4_CLAIM_NULL{File: name},
 	}}, &nfsv4.NfsArgop4_OP_GETFH{}, getattrOp())
 	if n.staleDir(rep, 0, d) {
@@ -290,8 +343,22 @@ func (n *nfsFront) open(d int, name string, create, existing bool) *result {
 	r.ci = [][2]uint64{cinfo(ok.Cinfo)}
 	// close it again
 	handle := rep.res[2].(*nfsv4.NfsResop4_OP_GETFH).Opgetfh.(*nfsv4.Getfh4res_NFS4_OK).Resok4.Object
-	if c := n.compound(&nfsv4.NfsArgop4_OP_PUTFH{Opputfh: nfsv4.Putfh4args{Object: handle}},
-		&nfsv4.NfsArgop4_OP_CLOSE{Opclose: nfsv4.Close4args{OpenStateid: ok.Stateid}}); c.status != nfsv4.NFS4_OK {
+	putfh := &nfsv4.NfsArgop4_OP_PUTFH{Opputfh: nfsv4.Putfh4args{Object: handle}}
+	stateid := ok.Stateid
+	if n.minor == 0 {
+		if ok.Rflags&nfsv4.OPEN4_RESULT_CONFIRM == 0 {
+			n.protocol("open-of-new-owner-not-to-be-confirmed")
+		}
+		seqid++
+		c := n.compound(putfh, &nfsv4.NfsArgop4_OP_OPEN_CONFIRM{OpopenConfirm: nfsv4.OpenConfirm4args{OpenStateid: stateid, Seqid: seqid}})
+		if c.status != nfsv4.NFS4_OK {
+			n.protocol("open-confirm-failed")
+			return r
+		}
+		stateid = c.res[1].(*nfsv4.NfsResop4_OP_OPEN_CONFIRM).OpopenConfirm.(*nfsv4.OpenConfirm4res_NFS4_OK).Resok4.OpenStateid
+		seqid++
+	}
+	if c := n.compound(putfh, &nfsv4.NfsArgop4_OP_CLOSE{Opclose: nfsv4.Close4args{Seqid: seqid, OpenStateid: stateid}}); c.status != nfsv4.NFS4_OK {
 		n.protocol("close-failed")
 	}
 	return r
@@ -386,9 +453,23 @@ func (n *nfsFront) rename(d int, name string, d2 int, name2 string) *result {
 func (n *nfsFront) readdir(d int, cookie uint64, page, variant int) (*result, string, int) {
 	args := nfsv4.Readdir4args{AttrRequest: nfsAttrRequest}
 	if cookie > 0 {
+		if n.verifier == [8]byte{} {
+			// no READDIR reply seen yet: a client has no cookie to resume from
+			return nil, "", 0
+		}
 		args.Cookie = cookie + 2
-		if variant&1 == 0 {
-			args.Cookieverf = n.verifier
+		args.Cookieverf = n.verifier
+		if variant&1 != 0 {
+			// A cookie is only good together with the verifier it was handed
+			// out with (RFC 7530 16.24.4, RFC 8881 18.23.3): with any other
+			// verifier, the all-zero one of a first request included, the
+			// answer must be NFS4ERR_NOT_SAME.
+			probe := args
+			probe.Cookieverf = [8]byte{}
+			probe.Maxcount = 4096
+			if rep := n.compound(n.putDir(d), &nfsv4.NfsArgop4_OP_READDIR{Opreaddir: probe}); !n.staleDir(rep, 0, d) && rep.status != nfsv4.NFS4ERR_NOT_SAME {
+				n.protocol("readdir-accepts-cookie-with-foreign-verifier")
+			}
 		}
 	}
 	cookieTerm := fmt.Sprintf("(cookie_of_off %d%%N)", args.Cookie)
@@ -403,8 +484,10 @@ func (n *nfsFront) readdir(d int, cookie uint64, page, variant int) (*result, st
 		if rep.status != nfsv4.NFS4ERR_TOOSMALL || args.Maxcount > 1<<16 {
 			break
 		}
-		// not even one entry fits: the client asks again with a larger buffer
+		// not even one entry fits (maxcount, or the dircount hint, which this
+		// server enforces): the client asks again with larger limits
 		args.Maxcount *= 2
+		args.Dircount *= 2
 	}
 	if n.staleDir(rep, 0, d) {
 		return nil, "", 0
